@@ -132,6 +132,34 @@ def _eq(x, y):
     return to_real(x) == to_real(y)
 
 
+def check_bracket_tol(reg, src, prop=PID):
+    """_bracket_tol(tol, a, b): the width at which a bracket counts as converged is the requested tolerance but never less than
+    eps * max(|a|, |b|) -- the spacing of floating-point numbers at the bracket.  This is the lemma that connects the proofs over the
+    reals (A1) with the float side: with this width the stopping test |b - a| <= width is reachable for a bracket that has collapsed to
+    adjacent floats, at any magnitude of the bracket (defect F9b was its absence)."""
+    import z3
+    from pyvc.executor import State, Ctx, Raised
+    from pyvc.values import to_real
+    fi = src.func(CO.brentsroot.file, "_bracket_tol")
+    ex = Executor(src, reg, prop=prop)
+    st = State()
+    tol, a, b = z3.Real("tol"), z3.Real("a"), z3.Real("b")
+    st.assume(tol >= 0)
+    ctx = Ctx(fi, None, None, tag="_bracket_tol")
+    paths = ex.call_function(fi, [tol, a, b], {}, st, ctx)
+    absz = lambda x: z3.If(x >= 0, x, -x)
+    spacing = ex.eps * z3.If(absz(a) >= absz(b), absz(a), absz(b))
+    for k, (s, v) in enumerate(paths):
+        if isinstance(v, Raised) or not z3.is_expr(v):
+            reg.undecided("%s/_bracket_tol/value#%d" % (prop, k), "unsupported", "_bracket_tol", "result %r" % (v,))
+            continue
+        r = to_real(v)
+        ex.prove(s, ctx, r >= tol, "post", "never-below-the-requested-tolerance#%d" % k)
+        ex.prove(s, ctx, r >= spacing, "post", "never-below-the-float-spacing-at-the-bracket#%d" % k)
+        ex.prove(s, ctx, z3.Or(r == tol, r == spacing), "post", "no-wider-than-needed#%d" % k)
+    return fi
+
+
 def run(tier):
     R = common.Run(PID, "proof", tier)
     R.assume("A1", "A2", "A3", "A4", "A7")
@@ -146,6 +174,7 @@ def run(tier):
     jobs = [(CO.brentsroot, None), (tol_none(CO.brentsroot), "tol-none"),
             (CO.brentsrootvec, None), (CO.brentsrootvec_list, "list-front-end"), (tol_none(CO.brentsrootvec), "tol-none")]
     try:
+        R.under_contract(check_bracket_tol(reg, src))
         for c, label in jobs:
             fi = src.func(c.file, c.func)
             R.under_contract(fi)
